@@ -20,6 +20,7 @@
 package alg
 
 import (
+	"math"
 	"runtime"
 	"strconv"
 	"unsafe"
@@ -156,6 +157,9 @@ func HtmlEscape(dst []byte, src []byte) []byte {
 
 func F64toa(buf []byte, v float64) []byte {
 	if v == 0 {
+		if math.Signbit(v) {
+			return append(buf, '-', '0')
+		}
 		return append(buf, '0')
 	}
 	buf = rt.GuardSlice2(buf, 64)
@@ -169,6 +173,9 @@ func F64toa(buf []byte, v float64) []byte {
 
 func F32toa(buf []byte, v float32) []byte {
 	if v == 0 {
+		if math.Signbit(float64(v)) {
+			return append(buf, '-', '0')
+		}
 		return append(buf, '0')
 	}
 	buf = rt.GuardSlice2(buf, 64)
